@@ -18,7 +18,7 @@ Theorem C17_limit_premature_steps : forall c ops b b2, let s := run c ops in
   finished s = false -> exceeded c s = true -> has_time_limit c && b = false ->
   let '(s', r) := step c b b2 s in
   r = RNone /\ finished s' = true /\ premature s' = true /\ timed_out s' = false /\ hist s' = hist s /\
-  valid s' = None /\ invalid s' = None.
+  valid c s' = None /\ invalid c s' = None.
 Proof. intros c ops b b2 s. apply step_limit_stops, Inv_run. Qed.
 Print Assumptions C17_limit_premature_steps.
 
@@ -27,12 +27,12 @@ Theorem C17_limit_premature_time : forall c ops b2, let s := run c ops in
   finished s = false -> has_time_limit c = true ->
   let '(s', r) := step c true b2 s in
   r = RErr Timeout /\ finished s' = true /\ premature s' = true /\ timed_out s' = true /\ hist s' = hist s /\
-  valid s' = None /\ invalid s' = None.
+  valid c s' = None /\ invalid c s' = None.
 Proof. intros c ops b2 s. apply time_limit_stops, Inv_run. Qed.
 Print Assumptions C17_limit_premature_time.
 
 (* in every state: premature means no verdict *)
-Theorem C17_premature_no_verdict : forall s, premature s = true -> valid s = None /\ invalid s = None.
+Theorem C17_premature_no_verdict : forall c s, premature s = true -> valid c s = None /\ invalid c s = None.
 Proof. exact premature_no_verdict. Qed.
 Print Assumptions C17_premature_no_verdict.
 
@@ -87,7 +87,7 @@ Print Assumptions C17_setters_locked.
 
 (* a tableau that was never given an argument never reports a verdict *)
 Theorem C17_no_argument_no_verdict : forall c ops, ~ In SetArgument ops ->
-  valid (run c ops) = None /\ invalid (run c ops) = None.
+  valid c (run c ops) = None /\ invalid c (run c ops) = None.
 Proof. exact no_argument_no_verdict. Qed.
 Print Assumptions C17_no_argument_no_verdict.
 
@@ -104,14 +104,28 @@ Theorem C17_build_total : forall c k b2 s, snd (build c k b2 s) <> RFuel.
 Proof. exact build_total. Qed.
 Print Assumptions C17_build_total.
 
-(* outside the property's letter, recorded because the faithful model shows them *)
+(* outside the property's letter, recorded because the faithful model shows them: with the two
+   probed behaviour flags off (the tree this was written against) the strengthenings are false *)
 Theorem C17_verdict_needs_trunk_refuted :
-  exists c ops, let s := run c ops in trunk s = false /\ has_logic s = false /\ valid s = Some true.
+  exists c ops, let s := run c ops in trunk s = false /\ has_logic s = false /\ valid c s = Some true.
 Proof. exact verdict_needs_trunk_refuted. Qed.
 Print Assumptions C17_verdict_needs_trunk_refuted.
 
 Theorem C17_finished_locked_refuted :
   exists c ops, let s := run c ops in let '(s', r) := exec c s SetArgument in
-    finished s = true /\ r = ROk /\ trunk s' = true /\ hist s' = 0 /\ invalid s' = Some true.
+    finished s = true /\ r = ROk /\ trunk s' = true /\ hist s' = 0 /\ invalid c s' = Some true.
 Proof. exact finished_locked_refuted. Qed.
 Print Assumptions C17_finished_locked_refuted.
+
+(* ... and they hold for a tree on which the probe finds the flags set *)
+Theorem C17_verdict_needs_trunk_if_flag : forall c s, c_trunk_verdict c = true -> trunk s = false ->
+  valid c s = None /\ invalid c s = None.
+Proof. exact verdict_needs_trunk. Qed.
+Print Assumptions C17_verdict_needs_trunk_if_flag.
+
+Theorem C17_finished_locks_setters_if_flag : forall c s, c_fin_lock c = true -> finished s = true ->
+  exec c s SetArgument = (s, RErr IllegalState) /\
+  exec c s SetLogic = (s, RErr IllegalState) /\
+  exec c s BuildTrunk = (s, RErr IllegalState).
+Proof. exact finished_locks_setters. Qed.
+Print Assumptions C17_finished_locks_setters_if_flag.
